@@ -176,8 +176,36 @@ def equation_ob(which, dx, r, B):
                         [f"jinns.loss._DynamicLoss:{cls}.equation"])
 
 
-def boundary_ob(cond, time, dx, r, B, facet):
-    m = 1
+class _CorrelatedOU(OU_FPENonStatioLoss2D):
+    """the exported Fokker-Planck base equation with a full (correlated) noise matrix: subclassing sigma_mat is the
+    documented way to do it"""
+    def sigma_mat(self, t, x, eq_params):
+        return eq_params["sigma"]
+
+
+def fpe_full_sigma_ob(r, B):
+    def build():
+        S = Sep("e", True, 2, r, 1)
+        def fn(th, t, x, q, sg_, Tmax):
+            return _CorrelatedOU(Tmax=Tmax).evaluate(t, x, S.u, S.params(th, {"alpha": q[0:2], "mu": q[2:4], "sigma": sg_}))
+        def spec(th, t, x, q, sg_, Tmax, wrong=False):
+            T = Tmax[()]
+            Dm = [[c(1) / 2 * sum((sg_[i, k] * sg_[j, k] for k in range(2)), P.ZERO) for j in range(2)] for i in range(2)]
+            def g(pt):
+                N = S.F(0, pt, th)
+                o1 = sum((D(q[a] * (q[2 + a] - pt[1 + a]) * N, pt[1 + a]) for a in range(2)), P.ZERO)
+                o2 = sum((D(D(Dm[i][j] * N, pt[1 + i]), pt[1 + (j if not wrong else i)]) for i in range(2) for j in range(2)), P.ZERO)
+                return [-D(N, pt[0]) + T * (-o1 + o2)]
+            return grid_arr(t, x, True, B, 2, g, (1,))
+        return dict(fn=fn, spec=spec, canary=lambda *z: spec(*z, wrong=True),
+                    inputs=[Inp("th", (1,)), Inp("t", (B, 1)), Inp("x", (B, 2)), Inp("q", (4,), "pos"), Inp("sg", (2, 2)), Inp("Tmax", (), "pos")],
+                    timeout_ms=30000)
+    return EqObligation(f"C11/FPENonStatioLoss2D.equation[SPINN]/grid_entry_equals_pointwise[full_noise_matrix,r={r},B={B}]", build,
+                        ["jinns.loss._DynamicLoss:FPENonStatioLoss2D.equation", "jinns.loss._DynamicLoss:OU_FPENonStatioLoss2D.diffusion"])
+
+
+def boundary_ob(cond, time, dx, r, B, facet, m=1, sel=None):
+    sel = sel if sel is not None else jnp.s_[0:1]
     F_ = 2 * dx
     def build():
         S = Sep("e", time, dx, r, m)
@@ -193,14 +221,14 @@ def boundary_ob(cond, time, dx, r, B, facet):
                 batch = PDENonStatioBatch(times_x_inside_batch=jnp.zeros((1, S.d)), times_x_border_batch=bb)
             else:
                 batch = PDEStatioBatch(inside_batch=jnp.zeros((1, S.d)), border_batch=bb)
-            return fun(f_grid, batch, S.u, S.params(th), facet, jnp.s_[0:1])
+            return fun(f_grid, batch, S.u, S.params(th), facet, sel)
         normals = {1: [(-1,), (1,)], 2: [(-1, 0), (1, 0), (0, -1), (0, 1)]}[dx]
         def spec(th, bb, wrong=False):
             tt = bb[:, 0:1, facet] if time else None
             xx = bb[:, (1 if time else 0):, facet]
             o = 1 if time else 0
             def g(pt):
-                N = S.F(0, pt, th)
+                N = S.F(sel.start, pt, th)          # the selected component of the network, no other
                 fv = P.app("fb", 0, (), pt)
                 if cond == "d":
                     return (N - fv) ** 2 if not wrong else (N + fv) ** 2
@@ -212,7 +240,8 @@ def boundary_ob(cond, time, dx, r, B, facet):
                     inputs=[Inp("th", (1,)), Inp("bb", (rows, S.d, F_))])
     nm = {("d", False): "boundary_dirichlet_statio", ("n", False): "boundary_neumann_statio",
           ("d", True): "boundary_dirichlet_nonstatio", ("n", True): "boundary_neumann_nonstatio"}[(cond, time)]
-    return EqObligation(f"C11/{nm}[SPINN]/grid_entry_equals_pointwise[dx={dx},r={r},B={B},facet={facet}]", build,
+    return EqObligation(f"C11/{nm}[SPINN]/grid_entry_equals_pointwise[dx={dx},r={r},B={B},facet={facet}"
+                        f"{'' if m == 1 else f',outputs={m},selected={sel.start}:{sel.stop}'}]", build,
                         ["jinns.loss._boundary_conditions:" + nm, "jinns.utils._utils:_get_grid"])
 
 
@@ -352,6 +381,12 @@ def obligations(tier):
                     obs.append(boundary_ob(cond, time, dx, 1, 2, facet))
                     if dx == 2 and (tier == "thorough" or facet == 3):
                         obs.append(boundary_ob(cond, time, dx, 1, 1, facet))     # a single border row per facet
+    # networks with several outputs and a condition on one of them
+    for cond in ("d", "n"):
+        for time in (False, True):
+            for dx, facet in ((1, 1), (2, 0), (2, 3)):
+                obs.append(boundary_ob(cond, time, dx, 1, 2, facet, m=2, sel=jnp.s_[1:2]))
+    obs.append(fpe_full_sigma_ob(1, 2))
     for dx in (1, 2):
         obs.append(ic_ob(dx, 1, 2, 1))
         obs.append(ic_ob(dx, 2, 2 if dx == 1 else 1, 2))
